@@ -355,7 +355,11 @@ struct Deriv
     // regex terms as a small persistent structure
     struct R { int k; CSet set; int n; std::shared_ptr<R> x, y; };   // k: 0 empty-language 1 eps 2 set 3 cat 4 alt 5 star
     using P = std::shared_ptr<R>;
-    static P mk(int k) { auto r = std::make_shared<R>(); r->k = k; r->n = 0; return r; }
+    // derivatives are not normalised (no alt idempotence), so ambiguous patterns make them grow exponentially with the string: a node budget turns
+    // that into "no second opinion" instead of minutes and gigabytes
+    static size_t& made() { static thread_local size_t n = 0; return n; }
+    struct out_of_budget {};
+    static P mk(int k) { if (++made() > 400000) throw out_of_budget{}; auto r = std::make_shared<R>(); r->k = k; r->n = 0; return r; }
     static P none() { static P p = mk(0); return p; }
     static P eps() { static P p = mk(1); return p; }
     static P cat(P x, P y) { if (x->k == 0 || y->k == 0) return none(); if (x->k == 1) return y; if (y->k == 1) return x; auto r = mk(3); r->x = x; r->y = y; return r; }
@@ -389,7 +393,14 @@ struct Deriv
         default: return cat(d(r->x, c), r);
         }
     }
-    bool match(const std::string& s) const { P r = conv(a.root); for (unsigned char c : s) { r = d(r, c); if (r->k == 0) return false; } return nullable(r); }
+    // 1 accepts, 0 rejects, -1 gave up (node budget)
+    int match3(const std::string& s) const
+    {
+        made() = 0;
+        try { P r = conv(a.root); for (unsigned char c : s) { r = d(r, c); if (r->k == 0) return 0; } return nullable(r) ? 1 : 0; }
+        catch (const out_of_budget&) { return -1; }
+    }
+    bool match(const std::string& s) const { return match3(s) == 1; }
 };
 
 // R4: equivalence of two (partial) labelled DFAs; returns true if equivalent, else a shortest distinguishing string
